@@ -335,6 +335,9 @@ pub fn oracle(cache: &mut RsaCache, name: &str, a: &[Vec<u8>]) -> Vec<Vec<u8>> {
 
 /// Adapter for `Model::eval`: S-expression arguments in, S-expression answer out, with a call log.
 pub struct Server {
+    /// when set, the 16-byte AES-CTR counter block derived by the KDF / hash calls below is replaced by
+    /// this value in the ANSWER (the model-side twin of /repo's `verif_hooks::force_iv`)
+    pub force_iv: Option<[u8; 16]>,
     pub cache: RsaCache,
     pub log: Vec<(String, Vec<Vec<u8>>, Vec<Vec<u8>>)>,
     pub keep_log: bool,
@@ -342,11 +345,22 @@ pub struct Server {
 
 impl Server {
     pub fn new() -> Self {
-        Server { cache: RsaCache::new(), log: vec![], keep_log: false }
+        Server { force_iv: None, cache: RsaCache::new(), log: vec![], keep_log: false }
     }
     pub fn answer(&mut self, name: &str, args: &[Sexp]) -> Sexp {
         let a: Vec<Vec<u8>> = args.iter().map(|x| x.bytes().to_vec()).collect();
-        let r = oracle(&mut self.cache, name, &a);
+        let mut r = oracle(&mut self.cache, name, &a);
+        if let Some(iv) = self.force_iv {
+            let derived_iv_site = match name {
+                "hkdf384" => a[2].starts_with(b"paseto-encryption-key") && a[0].is_empty(),
+                "hmac384" => a[1].first() == Some(&0x80) || a[1].starts_with(b"\x01k1.seal."),
+                "sha384" => a[0].starts_with(b"\x01k3.seal."),
+                _ => false,
+            };
+            if derived_iv_site && r.len() == 1 && r[0].len() == 48 {
+                r[0][32..48].copy_from_slice(&iv);
+            }
+        }
         if self.keep_log {
             self.log.push((name.to_string(), a, r.clone()));
         }
